@@ -156,7 +156,8 @@ def inexact_spacing_cases(ctx):
     N = ctx.pick(8, 16)
     close = lambda a, b: abs(a - b) <= 1e-9 * max(1.0, abs(a), abs(b))
     n_ok = 0
-    for s in (0.1, 0.2, 0.3, 0.7, 10.1):
+    # (also pitches that come out of a division and need more than a few decimals, and a binary fraction with seven decimals)
+    for s in (0.1, 0.2, 0.3, 0.7, 10.1, 1 / 3, 10 / 3, 3.141592653589793, 0.5078125, 1e-7 * 12345678):
         for nx, ny in [(n, 2) for n in range(1, N + 1)] + [(2, n) for n in range(1, N + 1)]:
             rep = {"builder": "single", "args": [nx, ny, s]}
             S = build(ctx, "single_col_zone.get_spec", single_col_zone.get_spec, (nx, ny, s), rep)
@@ -175,18 +176,27 @@ def inexact_spacing_cases(ctx):
                          f"deprecated single_zone_spec({nx},{ny},{s}) differs from single_col_zone.get_spec")
             else:
                 n_ok += 1
-        for nx in range(1, min(N, 8) + 1):
-            rep = {"builder": "two_col", "args": [nx, 2, s, 0.3]}
-            T = build(ctx, "two_col_zone.get_spec", two_col_zone.get_spec, (nx, 2, s, 0.3), rep)
+        for nx, gs in [(n, 0.3) for n in range(1, min(N, 8) + 1)] + [(3, 2 / 3), (2, 1 / 7)]:
+            rep = {"builder": "two_col", "args": [nx, 2, s, gs]}
+            T = build(ctx, "two_col_zone.get_spec", two_col_zone.get_spec, (nx, 2, s, gs), rep)
             if T is None:
                 continue
             ctx.evaluations += 1
             L, R, Z = (T.layout.static_traps.get(k) for k in ("left_traps", "right_traps", "traps"))
             ok = (L is not None and R is not None and Z is not None and tuple(L.shape) == (nx, 2) and tuple(R.shape) == (nx, 2) and tuple(Z.shape) == (2 * nx, 2)
-                  and all(close(x, i * (s + 0.3)) for i, x in enumerate(L.x_positions)) and all(close(r, l + 0.3) for l, r in zip(L.x_positions, R.x_positions)))
+                  and all(close(x, i * (s + gs)) for i, x in enumerate(L.x_positions)) and all(close(r, l + gs) for l, r in zip(L.x_positions, R.x_positions)))
+            # left / right are VIEWS of the two-column zone: their columns are the even / odd columns of the stored zone
+            # (up to the rounding of float sums taken in another order: 1e-9 relative, far below any coordinate resolution)
+            same = lambda a, b: len(a) == len(b) and all(close(u, v) for u, v in zip(a, b))
+            part = ok and same(list(L.x_positions), list(Z.x_positions)[0::2]) and same(list(R.x_positions), list(Z.x_positions)[1::2]) and \
+                same(list(L.y_positions), list(Z.y_positions)) and same(list(R.y_positions), list(Z.y_positions))
             if not ok:
                 ctx.fail({"builder": "two_col_zone.get_spec", "problem": "geometry", "spacing_kind": "not a binary fraction"}, rep,
-                         f"two_col_zone.get_spec({nx},2,{s},0.3): left/right/traps zones are not {nx} pairs at pitch {s}+0.3")
+                         f"two_col_zone.get_spec({nx},2,{s},{gs}): left/right/traps zones are not {nx} pairs at pitch {s}+{gs}")
+            elif not part:
+                ctx.fail({"builder": "two_col_zone.get_spec", "problem": "left/right do not partition the zone", "spacing_kind": "not a binary fraction"}, rep,
+                         f"two_col_zone.get_spec({nx},2,{s},{gs}): the columns of left_traps / right_traps are not the even / odd columns of the stored zone 'traps' "
+                         f"({list(R.x_positions)[:2]} vs {list(Z.x_positions)[1::2][:2]})")
             else:
                 n_ok += 1
     ctx.count("builder calls with spacings that are not binary fractions: agree within 1e-9", n_ok)
